@@ -53,9 +53,10 @@ THEOREMS = [
     "Klong.C14.pinned_no_stuck_waiter_fails",
 ]
 
-CALLS = ("call", "bigcall", "hugecall", "failcall", "badresult")     # plain / 70 000 / 300 000 character request payload
+CALLS = ("call", "bigcall", "hugecall", "failcall", "badresult", "relaycall")     # plain / 70 000 / 300 000 character request payload
 VALUES = ["a0", "a1", "a2", "dup", "push", "boom",     # bodies; "boom" fails when evaluated locally
-          "x" * 65537, "y" * 200000, "z" * 65000]       # pickled: > 64 KiB, ~200 KB, just under 64 KiB
+          "x" * 65537, "y" * 200000, "z" * 65000,
+          "relay"]       # pickled: > 64 KiB, ~200 KB, just under 64 KiB
 FAIL = [5]
 LARGE = [6, 7, 8]
 
@@ -135,6 +136,9 @@ def _run_case(ctx, drv, case, variant, record=None):
         wire_probs = h.wire_problems()
         unsent = list(h.unsent_blocked)
         unanswered = list(h.unanswered_blocked)
+        deadlocks = list(h.deadlocks)
+        off_klong = list(h.off_klong_evals)
+        lost_pushes = list(h.unanswered_pushes)
         extra_writes = h.extra_writes
         crash = None
         if h.run_task.done() and not h.run_task.cancelled() and h.run_task.exception() is not None:
@@ -184,6 +188,23 @@ def _run_case(ctx, drv, case, variant, record=None):
         ctx.oracle_fail("c14:listener-crash", case, "the listener leaves through its cleanup and signals its exit",
                         dict(crash=crash, observed=observed),
                         "_run died inside finally: remaining futures are never failed, _run_exit_event never set")
+    if deadlocks:
+        ctx.oracle_fail("c14:hang:command-evaluated-on-io-loop", case,
+                        "a peer's request is evaluated on the interpreter loop, never on the io loop thread",
+                        dict(commands=deadlocks, observed=observed),
+                        "a command that makes a remote call itself (relay) was evaluated on the io loop thread: "
+                        "its run_coroutine_threadsafe(...).result() on that loop did not complete (the loop cannot "
+                        "run while its own thread waits) - the io loop deadlocks and every caller hangs")
+    elif off_klong:
+        ctx.mismatch("commands of the peer run on klongloop, never on ioloop", case, "scheduled through klongloop",
+                     dict(evaluated_off_klong_loop=off_klong[:5]))
+    if lost_pushes:
+        ctx.oracle_fail("c14:push-not-answered", case,
+                        "a request of the peer to this side is evaluated and answered, calls pending meanwhile "
+                        "still get their own answers",
+                        dict(push_ids=lost_pushes, listener=lst, crash=crash, observed=observed),
+                        "a server->client request arrived on a healthy connection and no answer with its id was "
+                        "written (the peer's call to this side never returns)")
     if unanswered:
         ctx.oracle_fail("c14:hang:server-failure-not-reported", case,
                         "a call whose request the server has read returns or raises",
@@ -571,13 +592,34 @@ def gen_peer(rng, thorough):
                 yield dict(kind="peer-order", callers=kinds, stream=stream, sched=sched)
 
 
+def gen_push(rng):
+    """requests of the PEER to this side (server -> client push on a `.cli` connection: plain and
+    relay commands), alone and while calls are pending / before and after their answers"""
+    for n in (0, 1, 2):
+        for push in (4, 9):                         # "push", "relay"
+            for where in range(n + 1):
+                for split in (False, True):
+                    answers = [[k, k] for k in range(n)]
+                    stream = answers[:where] + [[100, push]] + answers[where:]
+                    if split and n:
+                        stream.append([101, 4])
+                    _, total = stream_layout(stream)
+                    sched = bring_to([4] * n)
+                    if split:
+                        p = rng.choice(cut_classes(stream))
+                        sched += [["F", 0, p], ["IO"], ["F", p, total], ["IOS"]]
+                    else:
+                        sched += [["F", 0, total], ["IOS"]]
+                    yield dict(kind="push", callers=["call"] * n, stream=stream, sched=sched)
+
+
 def gen_server(rng, count):
     """the REAL server side (TcpServerHandler.handle_client -> NetworkClient._run) at the other
     end of the wire: requests that evaluate, requests whose evaluation raises, results that
     cannot be pickled - a failure must reach the caller (the server drops the connection)"""
     for i in range(count):
         n = rng.randrange(1, 4)
-        kinds = [rng.choice(["call", "call", "failcall", "badresult"]) for _ in range(n)]
+        kinds = [rng.choice(["call", "call", "failcall", "badresult", "relaycall"]) for _ in range(n)]
         if i % 2 == 0 and all(k == "call" for k in kinds):
             kinds[rng.randrange(n)] = rng.choice(["failcall", "badresult"])
         seqs = [[["K", k]] * 3 for k in range(n)]
@@ -760,6 +802,7 @@ def run(ctx):
             kernel_trace_obligation(ctx, variant, rec[0])
         gens = [
             gen_orders(ctx.rng, not quick),
+            gen_push(ctx.rng),
             gen_server(ctx.rng, 60 if quick else 500),
             gen_peer(ctx.rng, not quick),
             gen_slow(ctx.rng, not quick),
